@@ -207,6 +207,8 @@ def mon_c09_items(run, case, stmts):
                       f"but the branch consists of steps that always succeed")
             elif stv == "SUCCEEDED" and all(x["op"] == "step" and x["beh"]["kind"] == "ret" and not x.get("mutate") and x.get("serdes") is None for x in body) and s.get("cfg", {}).get("serdes") is None:
                 want = [from_tagged(x["beh"]["v"]) for x in body]
+                if s.get("unwrap") and len(want) == 1:
+                    want = want[0]
                 if not teq(it.result, want):
                     run.v("C09", "item_result_wrong", "SUCCEEDED:constant-steps", f"{o['path']}[{it.index}] (invocation {o['inv']}): result {it.result!r}, the branch returned {want!r}")
 
